@@ -1009,6 +1009,16 @@ func (h *NtfnsHandler) asyncImport(walletId string) (finish bool, err error) {
 func (h *NtfnsHandler) asyncRemove(walletId string) error {
 	am, err := h.walletMgr.ksmgr.GetAddrManagerByAccountID(walletId)
 	if err != nil {
+		// a final round whose commit failed drops the keystore from the cache, and the
+		// reload that should undo this can fail as well: resynchronise the cache with the
+		// database before concluding that there is nothing left to remove
+		mwdb.View(h.walletMgr.db, func(rtx mwdb.ReadTransaction) error {
+			h.walletMgr.ksmgr.UpdateManagedKeystores(rtx, walletId)
+			return nil
+		})
+		am, err = h.walletMgr.ksmgr.GetAddrManagerByAccountID(walletId)
+	}
+	if err != nil {
 		logging.CPrint(logging.ERROR, "unexpected error", logging.LogFormat{"err": err, "walletId": walletId})
 		return nil
 	}
